@@ -983,7 +983,7 @@ func init() {
 			"multipart bodies with 0..6 text fields and 0..4 files of sizes around the 8 KiB (streamed on-demand parse) and 16 MiB (pre-parse) thresholds, Content-Length or chunked, StreamRequestBody on/off, DisablePreParseMultipartForm on/off, " +
 			"truncated bodies (parse errors), complete forms whose announced epilogue never arrives (connection EOF or read timeout error during the drain), handler ops MultipartForm/MultipartFormWithLimit/RemoveMultipartFormFiles/ResetBody in any order, TimeoutError, Connection: close; " +
 			"MultipartFormWithLimit at its boundary on streamed bodies with file parts > 8 KiB: limit = body length - 1, form + short epilogue with limit = form length, limit = body length; " +
-			"roundtrip: forms (values incl. empty/UTF-8/CRLF, several values per key, files in memory and on disk) written by WriteMultipartForm with random boundaries and parsed back by mime/multipart and by Request.MultipartForm; " +
+			"roundtrip: forms (values incl. empty/UTF-8/CRLF, several values per key, field names shared between values and files, repeated and empty names, files in memory and on disk) written by WriteMultipartForm with random boundaries and parsed back by mime/multipart and by Request.MultipartForm; " +
 			"hist: a Request object (fresh or reused after an ordinary POST, ReduceMemoryUsage on/off) reads a multipart request and is looked at through Body/Write/String/BodyWriteTo; conn histories: ordinary POST then multipart requests on one connection with handler ops bd/wr/st; " +
 			"reqrt: request read (pre-parsed) and re-written, parsed by net/http; hold: Body() of one pre-parsed multipart request held (not copied) while Body()/String()/Write() of a second one and a response's String() run, then compared byte for byte and parsed back. non-trivial = at least one temp file really created / form with files; distinct = distinct input",
 		Assumptions: []string{
@@ -1201,7 +1201,7 @@ func init() {
 			emit("conn", B("mb=40000000"), B("fields=1&files=big&bad=1&ops=mf"), B("plain=1"))
 			// round trips
 			vals := []string{"", "v", "two words", "line1\r\nline2", "ünïcödé ✓", "a=b&c=d", "--" + c35Boundary, strings.Repeat("x", 300)}
-			keys := []string{"k", "k", "key two", "K", "ü", "a\"b"}
+			keys := []string{"k", "k", "key two", "K", "ü", "a\"b", "f", "g", ""}
 			bounds := []string{c35Boundary, "b", "----WebKitFormBoundaryABC123", "a b", "x'()+_,-./:=?y", "", "bad\"quote", strings.Repeat("b", 70), strings.Repeat("b", 71), "trailing "}
 			for i := 0; i < n; i++ {
 				args := [][]byte{N([]int{0, 1, 100, 8192, 1 << 20}[r.Intn(5)]), B(bounds[r.Intn(len(bounds))])}
@@ -1213,7 +1213,7 @@ func init() {
 				}
 				for j := r.Intn(4); j > 0; j-- {
 					sz := []int{0, 1, 100, 8192, 8193, 70000}[r.Intn(6)]
-					args = append(args, B("F"+[]string{"f", "f", "g"}[r.Intn(3)]), B([]string{"a.txt", "b b.bin", "ü.dat", "q\"uote"}[r.Intn(4)]), c35Pattern(sz, i+j))
+					args = append(args, B("F"+[]string{"f", "f", "g", "k", "K", "key two", ""}[r.Intn(7)]), B([]string{"a.txt", "b b.bin", "ü.dat", "q\"uote"}[r.Intn(4)]), c35Pattern(sz, i+j))
 				}
 				emit("roundtrip", args...)
 			}
@@ -1252,7 +1252,7 @@ func init() {
 				flags := []byte{byte('0' + r.Intn(2)), byte('0' + r.Intn(2)), []byte("BWST")[r.Intn(4)]}
 				args := [][]byte{flags, N([]int{1, 100, 5000, 70000}[r.Intn(4)])}
 				for j := r.Intn(3); j > 0; j-- {
-					args = append(args, B("V"+[]string{"k", "k2"}[r.Intn(2)]), B(vals[r.Intn(4)]))
+					args = append(args, B("V"+[]string{"k", "k2", "f", "g"}[r.Intn(4)]), B(vals[r.Intn(4)]))
 				}
 				for j := r.Intn(3); j > 0; j-- {
 					args = append(args, B("F"+[]string{"f", "g"}[r.Intn(2)]), B("n.bin"), c35Pattern([]int{0, 5, 5000, 90000}[r.Intn(4)], i+j))
@@ -1265,7 +1265,7 @@ func init() {
 				args := [][]byte{B(us)}
 				for f := 0; f < 2; f++ {
 					for j := r.Intn(3); j > 0; j-- {
-						args = append(args, B("V"+[]string{"k", "k2"}[r.Intn(2)]), B(fmt.Sprintf("form%d-%s", f, vals[r.Intn(4)])))
+						args = append(args, B("V"+[]string{"k", "k2", "f", "g"}[r.Intn(4)]), B(fmt.Sprintf("form%d-%s", f, vals[r.Intn(4)])))
 					}
 					for j := 1 + r.Intn(2); j > 0; j-- {
 						args = append(args, B("F"+[]string{"f", "g"}[r.Intn(2)]), B(fmt.Sprintf("n%d.bin", f)), c35Pattern([]int{5, 300, 5000, 40000}[r.Intn(4)], i+j+7*f))
@@ -1279,7 +1279,7 @@ func init() {
 			for i := 0; i < n/2; i++ {
 				var args [][]byte
 				for j := r.Intn(4); j > 0; j-- {
-					args = append(args, B("V"+[]string{"k", "k2"}[r.Intn(2)]), B(vals[r.Intn(4)]))
+					args = append(args, B("V"+[]string{"k", "k2", "f", "g"}[r.Intn(4)]), B(vals[r.Intn(4)]))
 				}
 				for j := 1 + r.Intn(3); j > 0; j-- {
 					args = append(args, B("F"+[]string{"f", "g"}[r.Intn(2)]), B("n.bin"), c35Pattern([]int{0, 5, 5000, 90000}[r.Intn(4)], i+j))
